@@ -116,8 +116,12 @@ def gen_source(rng):
     elif r < 0.86:
         spec["prov"] = rng.choice(["vertices", "vertices_xyz", "vertices_xyz"])
         spec["dialect"] = {"xyz_scale": rng.choice([1.0, 1.0, 0.5, 2.0, 1.000003])}
+        if spec["prov"] == "vertices_xyz" and rng.random() < 0.25:
+            # Cartesian corners given as whole numbers typed int64: the cube (+-1, +-1, +-1)
+            spec.update(mesh="cube", params={"n": 1}, jitter=0.0)
+            spec["dialect"] = {"int_xyz": True}
     else:
-        spec["prov"] = rng.choice(["ugrid_mem", "ugrid_mem_chunked", "ugrid_file"])
+        spec["prov"] = rng.choice(["ugrid_mem", "ugrid_mem_chunked", "ugrid_file", "esmf_mem"])
         spec["dialect"] = {"lon360": rng.random() < 0.5, "start": rng.choice([0, 1]), "chunks": rng.random() < 0.5}
     if spec.get("kind") == "mesh" and rng.random() < 0.12:
         spec["reencode"] = rng.sample(["face_edge_connectivity", "face_lon", "edge_lon", "node_x", "face_x"], rng.randint(0, 3))
